@@ -4,7 +4,6 @@ Require Import Verif.Model.Base.
 
 Inductive site_kind := SPanic | SExit | SAssert.
 Definition panic_sites : list (bytes * site_kind) := [
-  ([x45;x6e;x74;x72;x79;x2e;x50;x72;x69;x6e;x74;x6c;x6e], SAssert); (* Entry.Println *)
   ([x45;x6e;x74;x72;x79;x2e;x6c;x6f;x67;x43;x6f;x6e;x74;x65;x78;x74], SAssert); (* Entry.logContext *)
   ([x45;x6e;x74;x72;x79;x2e;x6c;x6f;x67;x43;x6f;x6e;x74;x65;x78;x74], SExit); (* Entry.logContext *)
   ([x45;x6e;x74;x72;x79;x2e;x6c;x6f;x67;x43;x6f;x6e;x74;x65;x78;x74], SPanic); (* Entry.logContext *)
@@ -15,7 +14,6 @@ Definition panic_sites : list (bytes * site_kind) := [
   ([x50;x72;x69;x6e;x74;x43;x74;x78;x2e;x54;x72;x75;x6e;x63;x61;x74;x65], SPanic); (* PrintCtx.Truncate *)
   ([x50;x72;x69;x6e;x74;x43;x74;x78;x2e;x57;x72;x69;x74;x65;x54;x6f], SPanic); (* PrintCtx.WriteTo *)
   ([x50;x72;x69;x6e;x74;x43;x74;x78;x2e;x67;x72;x6f;x77], SPanic); (* PrintCtx.grow *)
-  ([x50;x72;x69;x6e;x74;x6c;x6e], SAssert); (* Println *)
   ([x67;x6b;x76;x70;x2e;x53;x65;x74;x56;x61;x6c;x75;x65], SPanic); (* gkvp.SetValue *)
   ([x67;x72;x6f;x77;x53;x6c;x69;x63;x65], SPanic); (* growSlice *)
   ([x73;x65;x72;x69;x61;x6c;x69;x7a;x65;x41;x74;x74;x72;x73], SPanic) (* serializeAttrs *)
